@@ -22,6 +22,7 @@ def relabel_nodes(
     nodes (counting depth points instead of nodes)."""
     non_terminals = g.non_terminals
     children: list[Any]
+    is_list = is_list or isinstance(i, list)
     if getattr(i, "gengy_labeled", False):
         return (
             i.gengy_nodes,
